@@ -681,10 +681,11 @@ def judge(case, hl, ml, crashed):
                 if a == 1 and not (abs(oa - ob) <= 1e-6 * max(1.0, abs(oa), abs(ob))):
                     return "value", "returns objective %r" % ob
                 return None
-            dg_, dp_, df_ = differs("g"), differs("p"), differs("f")
+            dg_, dp_, df_, dq_ = differs("g"), differs("p"), differs("f"), differs("q")
             mine = "%s%s" % (ST.get(a, a), (" with objective %r" % oa) if a == 1 else "")
-            if dg_ and dp_:
-                # neither a new solver with the same settings nor a plain one agrees: the modification history matters
+            if dg_ and dp_ and dq_:
+                # no solver built from scratch agrees - not with the same settings, not without scaler and simplifier, not without
+                # them in the same representation (the configuration the warm-started solve itself runs in): the history matters
                 pre = "resolve"
                 if a in (-8, -7, -6, -5):
                     pre = "resolve-abort"       # the warm-started solve gave up (cycling / limits): no verdict rather than a wrong one
@@ -695,17 +696,16 @@ def judge(case, hl, ml, crashed):
                 elif freed:
                     pre = "freed-nonbasic:" + pre
                 add(("%s-%s" % (pre, dg_[0]), "optimize after the history returns %s; a new solver with the same settings given the reported LP %s, "
-                            "a new solver without scaler and simplifier %s" % (mine, dg_[1], dp_[1]), j))
-            elif dg_ or dp_ or df_:
+                            "a new solver without scaler and simplifier %s (in the same representation: %s)" % (mine, dg_[1], dp_[1], dq_[1]), j))
+            elif dg_ or dp_ or df_ or dq_:
                 # the in-place solve agrees with at least one solve from scratch: the answer depends on the settings, not on the history
-                which = [tg for tg, dd in (("same", dg_), ("plain", dp_), ("default", df_)) if dd]
-                dd = dg_ or dp_ or df_
+                dd = dg_ or dp_ or df_ or dq_
                 kind = dd[0]
                 both = {ST.get(a, a)} | {kind.split("/")[-1]}
                 if kind.startswith("status") and both <= {"INFEASIBLE", "UNBOUNDED", "INForUNBD"}:
                     kind = "status:infeasible-or-unbounded"
                 add(("settings-dependent-%s" % kind, "optimize after the history returns %s, but new solvers given the reported LP disagree among "
-                            "themselves: %s" % (mine, "; ".join("%s settings %s" % (tg, dd2[1]) for tg, dd2 in (("same", dg_), ("plain", dp_), ("default", df_)) if dd2)), j))
+                            "themselves: %s" % (mine, "; ".join("%s settings %s" % (tg, dd2[1]) for tg, dd2 in (("same", dg_), ("plain", dp_), ("default", df_), ("plain in the same representation", dq_)) if dd2)), j))
         if prev[1].get("sc") == "1" and grows(o, int(prev[0].get("m", "0")), int(prev[0].get("n", "0"))):
             grew_scaled = True
         if name in ("L1", "R1", "G1", "LV", "RV", "GV", "CR", "W1", "U1", "B1", "WV", "UV", "BV", "CC"):
@@ -713,7 +713,8 @@ def judge(case, hl, ml, crashed):
                 x, y = d.get(a, "").split(","), d.get(b, "").split(",")
                 return [i for i, (p, q) in enumerate(zip(x, y)) if p and q and canon(p) == "-inf" and canon(q) == "inf"]
             for a, b in (("lhs", "rhs"), ("lo", "up")):
-                if set(nfree(h1, a, b)) - set(nfree(prev[0], a, b)):
+                # only a variable that is in a stored basis can stay non-basic at a value it no longer has
+                if set(nfree(h1, a, b)) - set(nfree(prev[0], a, b)) and prev[1].get("hb") == "1":
                     freed = True
             if name in ("LV", "RV", "GV", "WV", "UV", "BV") and prev[1].get("sc") == "1" and any(canon(x) in ("inf", "-inf") for x in o.split()[2:]):
                 infvec = True
@@ -874,9 +875,9 @@ def main():
                       "values at or beyond +-1e100 are compared as 'infinite'",
                       "hasBasis is not predicted (implementation freedom); a basis that is reported must be valid (dimension, number of basic "
                       "variables, statuses compatible with the bounds)",
-                      "solve comparison at every optimize against three solvers constructed from scratch from the reported LP (same settings, "
-                      "default settings, no scaler/simplifier): same status, objective value within relative 1e-6 (small-integer LPs); a "
-                      "difference to all of the same-settings and plain solvers is attributed to the modification history (resolve-*), a "
+                      "solve comparison at every optimize against four solvers constructed from scratch from the reported LP (same settings, "
+                      "default settings, no scaler/simplifier, no scaler/simplifier in the same representation = what a warm start runs): same status, objective value within relative 1e-6 (small-integer LPs); a "
+                      "difference to all of the same-settings and the two plain solvers is attributed to the modification history (resolve-*), a "
                       "difference among the from-scratch solvers themselves to the settings (settings-dependent-*, decided by C01/C02/C08)",
                       "row objectives (no accessor in the real interface) are not observed"]
     ck.finish()
